@@ -27,6 +27,46 @@ SET, MAP = f'{T}.set.SetType', f'{T}.map.MapType'
 MUTATORS = {'append', 'sort', 'insert', 'pop', 'remove', 'extend', 'reverse', 'clear', '__setitem__', '__delitem__'}
 
 
+class Ranked:
+    """A key known only by its position in the total order (equal rank = equal key)."""
+
+    def __init__(self, i: int, rank: int):
+        self.i, self.rank = i, rank
+
+    def key(self):
+        return ('ranked', self.i, self.rank)
+
+    def __repr__(self):
+        return f'k{self.i}@{self.rank}'
+
+    def __deepcopy__(self, memo):
+        return self
+
+
+class RankHooks(Hooks):
+    def inline(self, it, fi):
+        return fi.name == 'check_constraints'
+
+    def compare(self, it, op, a, b, node):
+        if isinstance(a, Ranked) and isinstance(b, Ranked):
+            return {'<': a.rank < b.rank, '>': a.rank > b.rank, '<=': a.rank <= b.rank, '>=': a.rank >= b.rank,
+                    '==': a.rank == b.rank, '!=': a.rank != b.rank}.get(op, NotImplemented)
+        return NotImplemented
+
+    def call(self, it, callee, args, kwargs, node):
+        if isinstance(callee, Builtin) and args and isinstance(args[0], (list, tuple)) and all(isinstance(x, Ranked) for x in args[0]):
+            if callee.name == 'sorted' and not kwargs and len(args) == 1:
+                return sorted(args[0], key=lambda x: x.rank)
+            if callee.name in ('set', 'frozenset'):
+                seen, out = set(), []
+                for x in args[0]:
+                    if x.rank not in seen:
+                        seen.add(x.rank)
+                        out.append(x)
+                return out
+        return NotImplemented
+
+
 class IndHooks(Hooks):
     def __init__(self, repo: Repo, kind: str, representative: bool = True):
         self.repo = repo
@@ -289,27 +329,32 @@ def run(repo: Repo, chk: Check) -> None:
 
     # ---- check_constraints tests both duplicates and order ---------------------------------------------------------
     chk.set_clause('C14.3')
+    # decided in the order domain: entries of every weak ordering of up to 4 keys; accepted exactly when the keys are strictly increasing
+    import itertools
     for kind, cq in (('set', SET), ('map', MAP)):
         fi = repo.cls(cq).methods['check_constraints']
-        hooks = IndHooks(repo, kind, representative=False)
-        hooks.inline = lambda it, f: False  # type: ignore
-        it = Interp(repo, hooks, max_depth=1)
-        res = it.run_function(fi, [Sym('items')], self_val=ClassRef(cq))
-        rets = [p for p in res if p.outcome == 'return']
-        rej = [p for p in res if p.outcome == 'raise']
-        keys_term = "list(map('first', $items))" if kind == 'map' else '$items'
-        dup = order = False
-        for p in rets:
-            for c, b in p.conds:
-                s = vrepr(c)
-                if b and s.startswith('==(') and f'len(set({keys_term}))' in s and f'len({keys_term})' in s:
-                    dup = True
-                if b and s.startswith('==(') and f'sorted({keys_term}, \'identity\', None)' in s:
-                    order = True
-        chk.ob('R-PATH', fi.qualname, dup and len(rej) >= 2, 'rejects duplicates', fi.loc, {'accepting': [p.cond_repr() for p in rets]},
-               what='check_constraints accepts duplicate keys')
-        chk.ob('R-PATH', fi.qualname, order and len(rej) >= 2, 'rejects unsorted', fi.loc, {'accepting': [p.cond_repr() for p in rets]},
-               what='check_constraints accepts unsorted keys')
+        wrong = []
+        ncases = 0
+        for n in range(0, 5):
+            for ranks in itertools.product(range(n), repeat=n) if n else [()]:
+                if sorted(set(ranks)) != list(range(len(set(ranks)))):
+                    continue  # canonical weak orderings only (ranks 0..k-1 all used)
+                ncases += 1
+                keys = [Ranked(i, r) for i, r in enumerate(ranks)]
+                items = keys if kind == 'set' else [(k, Sym(f'v{i}')) for i, k in enumerate(keys)]
+                res = Interp(repo, RankHooks(), max_depth=2).run_function(fi, [items], self_val=ClassRef(cq))
+                accepted = [p.outcome for p in res] == ['return']
+                rejected = bool(res) and all(p.outcome == 'raise' for p in res)
+                want = all(ranks[i] < ranks[i + 1] for i in range(n - 1))
+                if (want and not accepted) or (not want and not rejected):
+                    wrong.append({'key_ranks': list(ranks), 'outcomes': [p.outcome for p in res], 'must_accept': want})
+        dup_wrong = [w for w in wrong if len(set(w['key_ranks'])) < len(w['key_ranks'])]
+        ord_wrong = [w for w in wrong if w not in dup_wrong]
+        chk.ob('R-PATH', fi.qualname, not dup_wrong, 'rejects duplicates', fi.loc, {'orderings': ncases, 'wrong': dup_wrong[:3]},
+               what=f'check_constraints accepts duplicate keys: {dup_wrong[:2]}')
+        chk.ob('R-PATH', fi.qualname, not ord_wrong, 'accepts exactly the strictly increasing key sequences', fi.loc, {'orderings': ncases, 'wrong': ord_wrong[:3]},
+               what=f'check_constraints decides wrongly on keys with ranks {ord_wrong[0]["key_ranks"] if ord_wrong else ""} '
+                    f'({"rejects a sorted literal" if ord_wrong and ord_wrong[0]["must_accept"] else "accepts an unsorted literal"}): {ord_wrong[:2]}')
 
     # ---- 4 instruction call table ---------------------------------------------------------------------------------
     chk.set_clause('C14.4')
